@@ -46,6 +46,10 @@ impl CombEngine {
         let nontrivial = out.inconclusive.is_none() && (self.prop.nontrivial)(case, &out);
         let labels = labels(case, &out);
         let mut violations = if out.inconclusive.is_some() { Vec::new() } else { std::mem::take(&mut out.world.viol) };
+        if let Some(pc) = out.world.post_panic {
+            // polled on after a caught panic: from that moment only ownership counts
+            violations.retain(|v| v.at <= pc || matches!(v.oracle, Oracle::D | Oracle::DV));
+        }
         if case.storm {
             // the helper threads invoke wakers at moments the harness cannot
             // order against child polls, so selectivity is not judged here
@@ -83,7 +87,7 @@ impl CombEngine {
                 .iter()
                 .filter(|v| matches!(v.fam, Some(f) if fams.contains(&f)))
                 .filter(|v| matches!(v.oracle, Oracle::L | Oracle::P | Oracle::Conc) || own(v.oracle))
-                .map(|v| world::Violation { oracle: Oracle::Func(v.fam.unwrap()), msg: format!("[{:?}] {}", v.oracle, v.msg), fam: v.fam })
+                .map(|v| world::Violation { oracle: Oracle::Func(v.fam.unwrap()), msg: format!("[{:?}] {}", v.oracle, v.msg), fam: v.fam, at: v.at })
                 .collect();
             violations.extend(extra);
         }
